@@ -1,25 +1,26 @@
 (* C06 — live delivery is exactly-once and in one consistent order.
    Statements only; proofs in Proofs/HubProofs7.v and Proofs/HubProofs4.v, over the hub transition system of
-   Model/Hub.v under every schedule of publishers, subscriber handlers, Close and crashes. The "exactly the matching
-   updates" statements are for the persistent (Bolt) transport with full retention; FIFO hand-over and the
-   append-only commit order hold for both transports. *)
+   Model/Hub.v under every schedule of publishers, subscriber handlers, Close and crashes, for both transports
+   (persistent = true: Bolt; false: local; eff_req false _ = NoReq: the local transport replays nothing), with full
+   retention. For the local transport the "commit order" is the order of the fan-out critical sections and hs_cut
+   the (ghost) position in it at which the subscriber was indexed. *)
 From Mercure Require Import Base Hub HubProofs4 HubProofs7.
 
 (* while a subscriber is live and has not been cut off, it has been sent - after its replay - exactly the matching
    updates committed after its registration, each once, in commit order *)
 Theorem C06_live_exactly_the_matching_suffix :
-  forall (mt : nat -> N -> bool) (cap : nat) (tracking : bool) reqs pubs sched i s left,
-  let st := w_st (wrun mt cap tracking (winit true 0 reqs pubs) sched) in
+  forall (mt : nat -> N -> bool) (cap : nat) (tracking persistent : bool) reqs pubs sched i s left,
+  let st := w_st (wrun mt cap tracking (winit persistent 0 reqs pubs) sched) in
   nth_error (h_subs st) i = Some s -> hs_phase s = PLive left -> hs_disc s = false ->
-  hs_sent s = hist_part mt i (h_committed st) (hs_cut s) (hs_req s) ++
+  hs_sent s = hist_part mt i (h_committed st) (hs_cut s) (eff_req persistent (hs_req s)) ++
               filter (mt i) (skipn (N.to_nat (hs_cut s)) (h_committed st)).
 Proof. exact live_exactly_the_matching_suffix. Qed.
 Print Assumptions C06_live_exactly_the_matching_suffix.
 
 (* exactly once: distinct update ids are never sent, nor written to the client, twice *)
 Theorem C06_exactly_once :
-  forall (mt : nat -> N -> bool) (cap : nat) (tracking : bool) reqs pubs sched i s,
-  let st := w_st (wrun mt cap tracking (winit true 0 reqs pubs) sched) in
+  forall (mt : nat -> N -> bool) (cap : nat) (tracking persistent : bool) reqs pubs sched i s,
+  let st := w_st (wrun mt cap tracking (winit persistent 0 reqs pubs) sched) in
   nth_error (h_subs st) i = Some s -> NoDup (h_committed st) -> NoDup (hs_sent s) /\ NoDup (hs_recvd s).
 Proof. exact exactly_once. Qed.
 Print Assumptions C06_exactly_once.
@@ -51,6 +52,16 @@ Theorem C06_commit_order_respects_real_time :
   exists l1 l2 l3, h_committed (w_st w') = l1 ++ u :: l2 ++ v :: l3.
 Proof. exact commit_order_respects_real_time. Qed.
 Print Assumptions C06_commit_order_respects_real_time.
+
+Example C06_nonvacuous_local :
+  (* the local transport: a subscriber asking for "earliest" gets only what is dispatched after its registration *)
+  let mt := fun (i : nat) (u : N) => true in
+  let w := wrun mt 5 false (winit false 0 [Earliest] [[1; 2; 3]])
+   [APubCheck 0; APublish 0 true; ASub 0 true; ASub 0 true; APubCheck 0; APublish 0 true; ASub 0 true; ASub 0 true; ASub 0 true; ASub 0 true;
+    APubCheck 0; APublish 0 true; ARecv 0] in
+  h_committed (w_st w) = [1; 2; 3] /\
+  map (fun s => (hs_sent s, hs_recvd s, hs_cut s, hs_disc s)) (h_subs (w_st w)) = [([2; 3], [2], 1, false)].
+Proof. vm_compute. split; reflexivity. Qed.
 
 Example C06_nonvacuous :
   (* two publishers interleaved with two subscribers, one of which matches only even ids *)
